@@ -19,6 +19,12 @@ def singleRequest (op : String) : Bool :=
 def step (st : St) (ws : List String) (j : Json) : St × String :=
   let op := ws.headD "?"
   let ret := jstr (jget j "ret")
+  -- C09: a task claimed by hand was running while a change was committed; once it is finished
+  -- the follow-up of that change must be pending (`guaranteed_methods_leave_pending`)
+  if op == "finishclaimed" then
+    (if ret == "ok:pending" then (st, "ok finishclaimed:followup-pending")
+     else if ret == "ok:nothing-claimed" then (st, "ok trivial:finishclaimed")
+     else (st, s!"FAIL oracle followup_pending_after_commit {ret}")) else
   if !singleRequest op then (st, s!"ok trivial:{op}") else
   let succ := (jarr (jget j "cmds")).filter fun c =>
     jstr (jget c "result") == "success" && (jstr (jget c "entity")).startsWith "cas:"
